@@ -355,6 +355,23 @@ fn universes(tier: &str) -> Vec<(String, Vec<u64>)> {
     let base = rc::all_cells(0);
     let mut out = Vec::new();
     let quints = |f: u64| rc::children(base[f as usize]);
+    // sparse universe with resolution gaps: complete sibling groups at r=1, 3 and 5 on different
+    // faces with empty levels between them, plus lone fine cells (levels that only fill by merging)
+    {
+        let q2 = quints(2);
+        let r2 = rc::children(q2[3]);
+        let r3 = rc::children(r2[1]);
+        let q3 = quints(3);
+        let r4 = rc::descendants(q3[0], 4);
+        let r5 = rc::children(r4[5]);
+        let lone7 = rc::descendants(quints(5)[2], 7);
+        let mut u: Vec<u64> = quints(1);
+        u.extend(r3.iter().copied());
+        u.extend(r5.iter().copied());
+        u.push(lone7[100]);
+        u.push(lone7[4000]);
+        out.push(("resolution gaps: 5 quintants (face 1) + 4 r=3 siblings (face 2) + 4 r=5 siblings (face 3) + 2 lone r=7 cells".to_string(), u));
+    }
     if tier == "quick" {
         // 12 base cells + the 5 quintants of face 1 (quintant codes 5..9 interleave with base cells 5..9)
         let mut u = base.clone();
